@@ -354,7 +354,7 @@ class RepoClass:
                     if isinstance(dn, ast.Call):
                         dn = dn.func
                     nm = dn.id if isinstance(dn, ast.Name) else (dn.attr if isinstance(dn, ast.Attribute) else None)
-                    if nm == "property":
+                    if nm in ("property", "cached_property"):
                         kind = "property"
                     elif nm == "staticmethod":
                         kind = "static"
